@@ -145,5 +145,7 @@ func VxC10_Weighted() {
 	}
 	vx.Assert(att, "the weighted quantile is a sample value")
 	vx.Assert(vx.Leq(below, q*tot, 1e-9, 1e-12), "the weight strictly below the result does not exceed q*total")
-	vx.Assert(q*tot < upto || vx.Close(q*tot, upto, 1e-9, 1e-12), "the weight up to the result exceeds q*total")
+	// "exceeds" is strict: exact in the real reading; natively the running subtraction may differ from
+	// this sum by rounding, but an exactly equal pair is still a failure (so a counterexample replays)
+	vx.Assert(q*tot < upto || (!vx.Real() && q*tot != upto && vx.Close(q*tot, upto, 1e-9, 1e-12)), "the weight up to the result exceeds q*total")
 }
